@@ -65,6 +65,9 @@ func gen(r *sim.Rng, tier string) *sim.Case {
 		if r.Pct(10) {
 			p["n"] = r.N(1200)
 		}
+		if r.Pct(2) {
+			p["n"] = r.Range(1000, 20000)
+		}
 		if r.Pct(20) {
 			p["n"] = r.N(3)
 		}
